@@ -1,6 +1,7 @@
 (* PropagateProofs.v — lemmas about MatchingPropagator (model: Propagate.v, vocabulary of the
    property: PropagateSpec.v). *)
-Require Import Base Decimal Tree GenTree GenNaming Visitor Propagate PropagateSpec TreeInd.
+Require Import Base Decimal Tree GenTree GenVisitors GenNaming Visitor Naming Propagate PropagateSpec
+               TreeInd NamingProofs.
 From Coq Require Import Lia Permutation.
 
 (* ---------------------------------------------------------------- tie: generated class tuples
@@ -45,7 +46,7 @@ Lemma is_leaf_pchildren t : is_leaf t = true -> pchildren t = [].
 Proof. destruct t; simpl; intros H; try discriminate; reflexivity. Qed.
 
 Lemma negation_pchildren t : is_negation t = true -> pchildren t <> [] /\ is_leaf t = false.
-Proof. destruct t as [| | | | | | | |[]| |]; simpl; intros H; try discriminate; split; [discriminate|reflexivity]. Qed.
+Proof. destruct t as [| | | | | | | |[]| |]; simpl; intros H; try discriminate; (split; [discriminate|reflexivity]). Qed.
 
 Lemma Forall_pchildren (P : item -> Prop) t : Forall P (children t) -> Forall P (pchildren t).
 Proof. unfold pchildren. destruct (atomic t); [constructor|auto]. Qed.
@@ -289,8 +290,11 @@ Section Proofs.
               (if spec_or dor t then existsb (fun b => b) (ev_list EV p 0 (pchildren t))
                else forallb (fun b => b) (ev_list EV p 0 (pchildren t))).
   Proof.
-    destruct t as [| | | | | | | |[]| |]; simpl; rewrite ?andb_true_r; try reflexivity.
-    destruct (or_like dor k); reflexivity.
+    destruct t as [| | | | | | |k m ops|[]| |]; simpl; try reflexivity;
+      try (match goal with |- context [EV ?t ?p] => destruct (EV t p); reflexivity end).
+    change (pchildren (Op k m ops)) with ops.
+    destruct (or_like dor k);
+      match goal with |- ?x = _ => destruct x; reflexivity end.
   Qed.
 
   Lemma ev_leaf t p : is_leaf t = true -> EV t p = sigma p.
@@ -346,11 +350,12 @@ Section Proofs.
       split; [simpl; rewrite Hb, Hbs; reflexivity|].
       intros p. rewrite in_app_iff, (Hok p), (Hoks p). split.
       + intros [[r [n [Hp [Hs He]]]]|[j [c0 [r [n [Hn [Hp [Hs He]]]]]]]].
-        * exists 0, c, r, n. rewrite Nat.add_0_r, Hp, <- app_assoc. simpl. repeat split; auto.
-          rewrite <- app_assoc in He. exact He.
+        * subst p. exists 0, c, r, n. rewrite Nat.add_0_r, <- app_assoc.
+          rewrite <- app_assoc in He. simpl in *. auto.
         * exists (S j), c0, r, n. replace (i + S j) with (S i + j) by lia. auto.
       + intros [j [c0 [r [n [Hn [Hp [Hs He]]]]]]]. destruct j as [|j]; simpl in Hn.
-        * inversion Hn; subst c0. left. exists r, n. rewrite Hp, Nat.add_0_r, <- app_assoc. auto.
+        * inversion Hn; subst c0. left. exists r, n. subst p. rewrite Nat.add_0_r in *.
+          rewrite <- app_assoc. simpl. auto.
         * right. exists j, c0, r, n. replace (S i + j) with (i + S j) by lia. auto.
   Qed.
 
@@ -388,8 +393,7 @@ Section Proofs.
         + apply mem_path_In in E. rewrite (Hnode E). destruct (is_negation t); reflexivity.
         + rewrite ev_unfold, Hleaf, Hpc, <- Hsts.
           destruct sts as [|s sts']; [exfalso; symmetry in Hsts; revert Hsts; apply ev_list_nonempty|].
-          destruct (is_negation t); simpl; [|reflexivity].
-          destruct (spec_or dor t); reflexivity. }
+          destruct (is_negation t); [reflexivity|]. symmetry. apply xorb_false_l. }
     unfold resolve in H. cbv zeta in Hb. rewrite Hb in H.
     assert (Hsub : forall p, In p oks <->
               exists r n, r <> [] /\ p = pre ++ r /\ subexpr_at t r = Some n /\ EV n p = true).
@@ -450,12 +454,15 @@ Section Proofs.
     covered n q = Some a -> neg_between n = false -> EV n q = xorb (is_negation n) (sigma a).
   Proof.
     induction n using item_ind'; intros q a Hc Hnb; simpl in Hc; try discriminate;
-      try (inversion Hc; subst; reflexivity);
+      try (inversion Hc; subst; symmetry; apply xorb_false_l);
       simpl in Hnb; apply orb_false_elim in Hnb; destruct Hnb as [Hn1 Hn2];
       match goal with IH : forall q a, covered ?e q = _ -> _ |- _ =>
-        pose proof (IH _ _ Hc Hn2) as He; rewrite Hn1 in He; simpl in He end;
-      try (simpl; exact He).
-    destruct k; simpl; rewrite He; reflexivity.
+        pose proof (IH _ _ Hc Hn2) as He; rewrite Hn1, xorb_false_l in He end.
+    1-3, 5: (transitivity (sigma a); [exact He|symmetry; apply xorb_false_l]).
+    destruct k.
+    - transitivity (sigma a); [exact He|symmetry; apply xorb_false_l].
+    - change (negb (EV n (q ++ [0])) = negb (sigma a)). rewrite He. reflexivity.
+    - change (negb (EV n (q ++ [0])) = negb (sigma a)). rewrite He. reflexivity.
   Qed.
 
   Definition agree (n : item) (q a : path) : Prop :=
@@ -465,7 +472,8 @@ Section Proofs.
   Lemma agree_child n e q a :
     pchildren n = [e] -> agree n q a -> agree e (q ++ [0]) a.
   Proof.
-    intros Hp Ha r n' Hs. rewrite <- app_assoc. simpl. apply Ha. simpl. rewrite Hp. exact Hs.
+    unfold agree. intros Hp Ha r n' Hs. rewrite <- app_assoc. simpl.
+    apply (Ha (0 :: r) n'). simpl. rewrite Hp. exact Hs.
   Qed.
 
   Lemma sfp_step q a :
@@ -600,4 +608,146 @@ Proof.
   unfold matching_from_names. destruct (lookup_all m names) as [mt'|] eqn:Hall; [|discriminate].
   intros H; inversion H; subst; clear H. split; [apply lookup_all_in; exact Hall|].
   intros p. rewrite filter_In, negb_true_iff, mem_path_false. reflexivity.
+Qed.
+
+(* ---------------------------------------------------------------- the non-matching set *)
+
+Lemma NoDup_app_disjoint {A} (a b : list A) x : NoDup (a ++ b) -> In x a -> In x b -> False.
+Proof.
+  induction a as [|y a IH]; simpl; intros Hnd Ha Hb; [contradiction|].
+  inversion Hnd as [|? ? Hy Hnd']; subst. destruct Ha as [Ha|Ha].
+  - subst y. apply Hy. apply in_or_app. auto.
+  - eauto.
+Qed.
+
+Theorem propagate_status_ko d M O sigma t ok ko :
+  good d M O sigma t [] -> propagate d M O t = (ok, ko) ->
+  forall p, In p ko <-> exists n, subexpr_at t p = Some n /\ ev (cls_eqb d COrOperation) sigma n p = false.
+Proof.
+  intros Hg H p.
+  destruct (propagate_partition d M O t ok ko H) as [Hnd Hcl].
+  pose proof (propagate_status d M O sigma t ok ko Hg H) as Hok. split.
+  - intros Hin. destruct (proj1 (Hcl p) (in_or_app _ _ _ (or_intror Hin))) as [n Hs].
+    exists n. split; [exact Hs|].
+    destruct (ev (cls_eqb d COrOperation) sigma n p) eqn:He; [|reflexivity].
+    exfalso. apply (NoDup_app_disjoint ok ko p Hnd); [|exact Hin]. apply Hok. eauto.
+  - intros [n [Hs He]]. assert (Hin : In p (ok ++ ko)) by (apply Hcl; exists n; exact Hs).
+    apply in_app_or in Hin. destruct Hin as [Hin|Hin]; [|exact Hin].
+    apply Hok in Hin. destruct Hin as [n' [Hs' He']]. congruence.
+Qed.
+
+Lemma lookup_name_in m nm p : lookup_name m nm = Some p -> In p (map snd m).
+Proof.
+  unfold lookup_name. destruct (find (fun e => str_eqb (fst e) nm) m) as [e|] eqn:E; [|discriminate].
+  intros H; inversion H; subst. apply find_some in E. destruct E as [E _]. apply in_map. exact E.
+Qed.
+
+(* matching ∪ other is the set of all paths of the name -> path mapping *)
+Theorem matching_from_names_union names m mt ot :
+  matching_from_names names m = Some (mt, ot) ->
+  forall p, In p (mt ++ ot) <-> In p (map snd m).
+Proof.
+  intros H p. destruct (matching_from_names_spec names m mt ot H) as [H1 H2].
+  rewrite in_app_iff. split.
+  - intros [Hin|Hin].
+    + apply H1 in Hin. destruct Hin as [nm [_ Hl]]. eapply lookup_name_in; eauto.
+    + apply H2 in Hin. apply Hin.
+  - intros Hin. destruct (mem_path p mt) eqn:E.
+    + left. apply mem_path_In. exact E.
+    + right. apply H2. split; [exact Hin|]. apply mem_path_false. exact E.
+Qed.
+
+(* ---------------------------------------------------------------- end to end with auto_name:
+   the premise [reported] holds for the names of auto_name reported according to sigma *)
+Lemma namer_handles_op : forall t, namer_handles (cls_of t) = is_op t.
+Proof. destruct t as [[]| |[]| | | | |[]|[]|[]|]; vm_compute; reflexivity. Qed.
+
+Lemma covered_cases t :
+  (is_leaf t = true /\ forall q, covered t q = Some q) \/
+  (exists e, pchildren t = [e] /\ forall q, covered t q = covered e (q ++ [0])) \/
+  (exists k m ops, t = Op k m ops).
+Proof.
+  destruct t;
+    first [ left; split; [reflexivity|intros; reflexivity]
+          | right; left; eexists; split; [reflexivity|intros; reflexivity]
+          | right; right; eauto ].
+Qed.
+
+(* a leaf is covered from the root, or from the operand of the deepest operation above it *)
+Lemma cover_find : forall t pre a l,
+  subexpr_at t a = Some l -> is_leaf l = true ->
+  covered t pre = Some (pre ++ a) \/
+  exists q0 i k m ops c, subexpr_at t q0 = Some (Op k m ops) /\ nth_error ops i = Some c /\
+                         covered c (pre ++ q0 ++ [i]) = Some (pre ++ a).
+Proof.
+  apply (item_children_ind (fun t => forall pre a l,
+    subexpr_at t a = Some l -> is_leaf l = true ->
+    covered t pre = Some (pre ++ a) \/
+    exists q0 i k m ops c, subexpr_at t q0 = Some (Op k m ops) /\ nth_error ops i = Some c /\
+                           covered c (pre ++ q0 ++ [i]) = Some (pre ++ a))).
+  intros t IH pre a l Hs Hl. apply Forall_pchildren in IH. destruct a as [|j a]; simpl in Hs.
+  - inversion Hs; subst l. left. rewrite app_nil_r.
+    destruct (covered_cases t) as [[_ H]|[[e [Hp _]]|[k [m [ops E]]]]]; [apply H| |subst; discriminate].
+    apply is_leaf_pchildren in Hl. congruence.
+  - destruct (nth_error (pchildren t) j) as [c|] eqn:Hn; [|discriminate].
+    rewrite Forall_forall in IH. pose proof (IH c (nth_error_In _ _ Hn)) as IHc.
+    destruct (IHc (pre ++ [j]) a l Hs Hl) as [Hc|[q0 [i [k [m [ops [c0 [H1 [H2 H3]]]]]]]]].
+    + rewrite <- app_assoc in Hc. simpl in Hc.
+      destruct (covered_cases t) as [[Hlt _]|[[e [Hp Hcov]]|[k [m [ops E]]]]].
+      * apply is_leaf_pchildren in Hlt. rewrite Hlt in Hn. destruct j; discriminate.
+      * rewrite Hp in Hn. destruct j as [|j]; [|destruct j; discriminate]. simpl in Hn.
+        inversion Hn; subst e. left. rewrite Hcov. exact Hc.
+      * subst t. right. exists [], j, k, m, ops, c. simpl in *. auto.
+    + right. exists (j :: q0), i, k, m, ops, c0. simpl. rewrite Hn.
+      rewrite <- !app_assoc in H3. simpl in H3. auto.
+Qed.
+
+Theorem auto_name_reported sigma t t' m :
+  auto_name t = Some (t', m) ->
+  (* every named element is a sub-expression (no operation inside a range / fuzzy / proximity) *)
+  (forall q, In q (map snd m) -> classified t q) ->
+  (* no negation strictly between a reported element and the term it covers *)
+  (forall q n, In q (map snd m) -> subexpr_at t q = Some n -> elem_true sigma t q = true ->
+               neg_between n = false) ->
+  reported sigma t (fst (report sigma t (map snd m))) (snd (report sigma t (map snd m))).
+Proof.
+  intros Ha Hcl Hneg. simpl.
+  destruct (auto_name_with_spec gen_letters ltac:(vm_compute; discriminate) namer_handles t t' m Ha)
+    as [_ [_ Hpaths]].
+  set (named := map snd m) in *.
+  assert (Hnamed : forall q, In q (filter (elem_true sigma t) named ++
+                                   filter (fun q => negb (elem_true sigma t q)) named) -> In q named).
+  { intros q Hin. apply in_app_or in Hin. destruct Hin as [Hin|Hin]; apply filter_In in Hin; apply Hin. }
+  assert (Hback : forall q, In q named ->
+            In q (filter (elem_true sigma t) named ++ filter (fun q => negb (elem_true sigma t q)) named)).
+  { intros q Hin. apply in_or_app. destruct (elem_true sigma t q) eqn:E.
+    - left. apply filter_In. auto.
+    - right. apply filter_In. rewrite E. auto. }
+  split.
+  - intros q n Hs Hin. apply Hnamed in Hin.
+    assert (Het : elem_true sigma t q = match covered n q with Some a => sigma a | None => false end).
+    { unfold elem_true. rewrite Hs. reflexivity. }
+    destruct (covered n q) as [a|] eqn:Hcov.
+    + split.
+      * rewrite filter_In, Het. tauto.
+      * intros HM. apply filter_In in HM. destruct HM as [_ HM]. eapply Hneg; eauto.
+    + rewrite filter_In, Het. intros [_ H]. discriminate.
+  - intros a l Hs Hl.
+    destruct (cover_find t [] a l Hs Hl) as [Hc|[q0 [i [k [mm [ops [c [H1 [H2 H3]]]]]]]]]; simpl in *.
+    + exists [], t. split; [|split; [reflexivity|exact Hc]]. apply Hback. apply Hpaths. right.
+      split; [|reflexivity]. intros q' Hop.
+      assert (Hin : In q' named) by (apply Hpaths; left; exact Hop).
+      destruct (Hcl q' Hin) as [x Hx].
+      destruct Hop as [q1 [i1 [n1 [Hq' [Hst [Hh _]]]]]]. subst q'.
+      destruct (subexpr_split _ _ _ _ Hx) as [n1' [Hq1 _]].
+      pose proof (proj1 (proj1 (subexpr_at_subtree _ _ _) Hq1)) as Hq1'. rewrite Hst in Hq1'.
+      inversion Hq1'; subst n1'. rewrite namer_handles_op in Hh. destruct n1; try discriminate.
+      rewrite (covered_op_none _ [] q1 _ _ _ Hq1) in Hc. discriminate.
+    + exists (q0 ++ [i]), c. split; [|split].
+      * apply Hback. apply Hpaths. left. exists q0, i, (Op k mm ops).
+        split; [reflexivity|]. split; [apply subexpr_at_subtree in H1; apply H1|].
+        split; [rewrite namer_handles_op; reflexivity|]. simpl. apply nth_error_Some. congruence.
+      * eapply subexpr_app; [exact H1|]. simpl. change (pchildren (Op k mm ops)) with ops.
+        rewrite H2. reflexivity.
+      * exact H3.
 Qed.
